@@ -224,8 +224,46 @@ pub fn gen_carrier(rng: &mut Rng) -> Case {
     } else {
         let s = sweep();
         let e = rng.pick(&s).clone();
-        sweep_case(&e, rng)
+        let mut case = sweep_case(&e, rng);
+        if rng.chance(35) {
+            place_elsewhere(&mut case, &e, rng);
+        }
+        case
     }
+}
+
+/// "Wherever it is written" also means wherever the file lies: with `--search-parent-directories`
+/// the `stylua.toml` carrier moves to the parent of the working directory or to one of the four
+/// XDG/HOME locations, and the flag carrier meets a `stylua.toml` there that sets some *other*
+/// option (the flag must still be applied on top of it).  Random phase only; the complete sweep
+/// and its self-check keep the plain worlds.
+fn place_elsewhere(case: &mut Case, e: &SweepEntry, rng: &mut Rng) {
+    if e.carrier.starts_with("editorconfig") {
+        return;
+    }
+    let spots: &[&str] = &["outer", "xdg", "xdg/stylua", "home/.config", "home/.config/stylua"];
+    let spot: &str = rng.pick(spots);
+    let w = &mut case.world;
+    if spot.starts_with("xdg") {
+        w.xdg = Some("xdg".into());
+    } else if spot.starts_with("home") {
+        w.home = Some("home".into());
+    }
+    match e.carrier.as_str() {
+        "toml" | "dot-toml" => {
+            let name = if e.carrier == "toml" { "stylua.toml" } else { ".stylua.toml" };
+            if let Some(bytes) = w.files.remove(&format!("{CWD}/{name}")) {
+                w.files.insert(format!("{spot}/{name}"), bytes);
+            }
+        }
+        _ => {
+            let decoy = if e.option == "column_width" { ("indent_width", "3") } else { ("column_width", "77") };
+            let kv = vec![(decoy.0.to_string(), decoy.1.to_string())];
+            w.files.insert(format!("{spot}/stylua.toml"), gen::toml_text(&kv).into_bytes());
+        }
+    }
+    case.invs[0].opts.search_parents = true;
+    case.family = format!("{}+placed:{spot}", case.family);
 }
 
 /// Self-checks of the sweep (harness errors, not violations, if they fail):
